@@ -102,6 +102,13 @@ int main (int argc, char** argv)
   fn ("ci_complex", [] { cd z = complex_in ("z"); out ("r", ci (z)); });
   fn ("ci_real", [] { double r = in ("r"); out ("r", ci (r)); });
 
+  // scalar multiples through the compound operators, the scalar being one of the quaternion's own components
+  fn ("div_alias_QH", [] { QH a = qmk<QH>::in ("a"), b = a, c = a, d = a; Jones<double> w0 = convert (a) / cd (a.s0), w1 = convert (a) / cd (a.s1), w2 = convert (a) / cd (a.s2);
+    b /= b.s0; c /= c.s1; d /= d.s2; out_jones ("g0", convert (b)); out_jones ("g1", convert (c)); out_jones ("g2", convert (d)); out_jones ("w0", w0); out_jones ("w1", w1); out_jones ("w2", w2);
+    if (!symbolic) for (unsigned i=0; i<4; i++) { expect ("convert (q /= q.s0) = convert (q) / s0", convert (b)[i], w0[i]); expect ("convert (q /= q.s1) = convert (q) / s1", convert (c)[i], w1[i]); expect ("convert (q /= q.s2) = convert (q) / s2", convert (d)[i], w2[i]); } });
+  fn ("mul_alias_BU", [] { BU a = qmk<BU>::in ("a"), b = a, c = a; Jones<double> w0 = convert (a) * a.s0, w1 = convert (a) * a.s2;
+    b *= b.s0; c *= c.s2; out_jones ("g0", convert (b)); out_jones ("g1", convert (c)); out_jones ("w0", w0); out_jones ("w1", w1);
+    if (!symbolic) for (unsigned i=0; i<4; i++) { expect ("convert (b *= b.s0) = convert (b) s0", convert (b)[i], w0[i]); expect ("convert (b *= b.s2) = convert (b) s2", convert (c)[i], w1[i]); } });
   // mixed element types: conversion between element types (real -> complex, single -> double) and the mixed sums,
   // differences and scalar multiples that go through it
   typedef Quaternion<float,Hermitian> FH; typedef Quaternion<float,Unitary> FU;
